@@ -28,6 +28,9 @@
    * "passing a distinct seed derived from the supplied one to each"
                                                    -> seeds_distinct (hypothesis: SeedSequence.spawn gives
                                                       different children different seeds)
+                                                   -> generators_distinct_at_use, options_generator_is_the_given_seed
+                                                      (the generator a component obtains from its options is made
+                                                      from exactly the child seed: distinct at the point of use)
    * the same for pipelines over histories         -> pipeline_retrain_equals_fresh *)
 From Coq Require Import ZArith List Bool Lia.
 From Coq Require String.
@@ -112,6 +115,24 @@ Theorem seeds_distinct : forall (Seed : Type) (spawn : nat -> Seed),
     NoDup (map (fun c => match pc_rng c with CSpawn i => Some (spawn i) | CSame => None end) calls).
 Proof. exact seeds_distinct_l. Qed.
 Print Assumptions seeds_distinct.
+
+(* the seed is distinct where it is USED: TrainingOptions.random_generator (shape regenerated from the source)
+   makes the component's generator from exactly the child seed it was handed; hypotheses: spawn and the
+   seed -> generator map of numpy are injective *)
+Theorem generators_distinct_at_use : forall (Seed Gen : Type) (spawn : nat -> Seed) (gen_of : Seed -> Gen),
+  (forall i j, spawn i = spawn j -> i = j) ->
+  (forall s t, gen_of s = gen_of t -> s = t) ->
+  options_rng_passthrough = true ->
+  forall k, k = KSeedLike \/ k = KSeedSequence ->
+  forall retrain sb ns,
+    let calls := ptrain_calls (pt_seed_plan k) pt_spawn_width retrain (start_index (pt_seed_plan k) sb) ns in
+    NoDup (map (fun c => match pc_rng c with CSpawn i => Some (gen_of (spawn i)) | CSame => None end) calls).
+Proof. exact generators_distinct_at_use_l. Qed.
+Print Assumptions generators_distinct_at_use.
+
+Theorem options_generator_is_the_given_seed : options_rng_passthrough = true.
+Proof. exact options_passthrough_l. Qed.
+Print Assumptions options_generator_is_the_given_seed.
 
 Theorem pipeline_retrain_equals_fresh : forall (D B : Type) (fit : D -> B * child_rng -> store -> fitres) k cs h d o,
   (forall c fr, In c cs -> cp_frame c = Some fr -> In fr frames) ->
